@@ -3,6 +3,7 @@ package props
 import (
 	"fmt"
 	"regexp"
+	"regexp/syntax"
 	"runtime"
 	"strconv"
 	"sync"
@@ -23,7 +24,7 @@ func init() {
 	lib.Register(&c15{base{
 		id: "C15", level: "exploration",
 		technique: "race detector + runtime reference monitor: one fresh process (fresh regexp cache, built with -race) per configuration; 1..64 goroutines released by a barrier hammer validate.Pattern and pattern / patternProperties schemas with pattern families engineered to collide under any plausible wrong cache key; every answer is compared online with Go regexp compiled by the harness from that very pattern; the race-detector log of each process is parsed by the parent",
-		rule: "one case = one configuration (goroutines in {1,2,4,8,16,32,64} x GOMAXPROCS in {1,2,4,16} x seed) = rounds in which all goroutines first-use the same new shared pattern at the same time, then mix shared, private (goroutine-tagged) and invalid patterns, each probed with strings that separate it from every sibling of its family; distinct = the configuration; non-trivial = >=2 goroutines (first-time compiles can collide)",
+		rule:      "one case = one configuration (goroutines in {1,2,4,8,16,32,64} x GOMAXPROCS in {1,2,4,16} x seed) = rounds in which all goroutines first-use the same new shared pattern at the same time, then mix shared, private (goroutine-tagged) and invalid patterns, each probed with strings that separate it from every sibling of its family; distinct = the configuration; non-trivial = >=2 goroutines (first-time compiles can collide)",
 		assumptions: []string{
 			"sampled schedules: a clean race-detector run says nothing about interleavings that were not produced; goroutines are kept alive until the end of the run so that the detector does not forget their accesses",
 			"Go's regexp package is the definition of matching, as the property states",
@@ -62,7 +63,23 @@ func c15Family(tag string) []string {
 }
 
 func c15Invalid(tag string) []string {
-	return []string{"(" + tag, tag + "[a", tag + "a{2,1}", "(?P<n" + tag, "*" + tag, tag + `\`}
+	return []string{"(" + tag, tag + "[a", tag + "a{2,1}", "(?P<n" + tag, "*" + tag, tag + `\`,
+		// invalid patterns whose parse error points at a fragment which is itself a (different) pattern
+		tag + "[z-a]", "[" + tag + `-\d]`, tag + "[[:foo:]]", tag + "x**", "[z-a]", `abc\`, "(?i)[z-a]" + tag}
+}
+
+// c15Fragments returns, for invalid patterns, the fragment their parse error points at (whatever it is: valid or
+// not): a wrong cache key derived from the error instead of the pattern makes these collide with their parents.
+func c15Fragments(invalid []string) []string {
+	var out []string
+	for _, p := range invalid {
+		if _, err := regexp.Compile(p); err != nil {
+			if se, ok := err.(*syntax.Error); ok && se.Expr != p {
+				out = append(out, se.Expr)
+			}
+		}
+	}
+	return out
 }
 
 func c15Probes(tag string) []string {
@@ -161,6 +178,9 @@ func (p *c15) Run(w *lib.Worker, idx int, r *lib.Rand) lib.Case {
 				shared := c15Family(tag)
 				invalid := c15Invalid(tag)
 				probes := c15Probes(tag)
+				// the fragments of the invalid patterns' parse errors, used as patterns of their own after their parents
+				frags := c15Fragments(invalid)
+				fragProbes := append([]string{"z-a", "z", "-", "a", "", "x*", "[:foo:]", ":", tag}, probes[:4]...)
 				// every goroutine first-uses the same new patterns right now, in the same order
 				for k := 0; k < 6 && k < len(shared); k++ {
 					one(rr, shared[(round+k)%len(shared)], probes[k%len(probes)])
@@ -173,6 +193,9 @@ func (p *c15) Run(w *lib.Worker, idx int, r *lib.Rand) lib.Case {
 						one(rr, private[rr.Intn(len(private))], privProbes[rr.Intn(len(privProbes))])
 					case 2:
 						one(rr, invalid[rr.Intn(len(invalid))], probes[rr.Intn(len(probes))])
+						if len(frags) > 0 && rr.P(0.5) {
+							one(rr, frags[rr.Intn(len(frags))], fragProbes[rr.Intn(len(fragProbes))])
+						}
 					default:
 						// an older round's pattern: repeated use
 						if round > 0 {
